@@ -345,7 +345,8 @@ set_option maxRecDepth 8000 in
 theorem execOp_perm (c : Ctx) (code : List Instr) (ins : Instr) (d : TData) (ctr : Nat) (p : Bool) :
     execOp (c.setPerm p) code ins d ctr = execOp c code ins d ctr := by
   unfold execOp
-  simp only [instantiate_perm, callOp_perm, copyOp_perm, memLoadSlice_perm, buildKnown_perm, build_perm]
+  simp only [instantiate_perm, callOp_perm, copyOp_perm, memLoadSlice_perm, buildKnown_perm, build_perm,
+    buildValue_perm, Ctx.setPerm]
 
 theorem execOp_cfg_perm (cfg : Cfg) (p : Bool) (ip len : Nat) (code : List Instr) (ins : Instr)
     (d : TData) (ctr : Nat) :
